@@ -18,6 +18,18 @@ fn check_same<T: Elt>(a: &Matrix<T>, snap: &Matrix<T>, what: &str) {
     if !same(a, snap) { panic!("harness: operand mutated by {}", what); }
 }
 
+// the norms exist for Matrix<f64> only; `run` is generic in the element type
+fn as_f64<T: Elt>(m: &Matrix<T>) -> &Matrix<f64> {
+    (m as &dyn std::any::Any).downcast_ref::<Matrix<f64>>().unwrap_or_else(|| panic!("harness: norms need elt f64"))
+}
+
+// a fresh matrix with the same shape and entries, built through the public API only (new + index)
+fn rebuild<T: Elt>(m: &Matrix<T>) -> Matrix<T> {
+    let mut r = Matrix::<T>::new(m.rows(), m.cols(), T::zero());
+    for i in 0..m.rows() { for j in 0..m.cols() { r[(i, j)] = m[(i, j)]; } }
+    r
+}
+
 // one step of a history; returns normally or panics (caught by the caller)
 fn step<T: Elt>(m: &mut Matrix<T>, op: &str, a: &mut Args, out: &mut Out) {
     match op {
@@ -85,9 +97,13 @@ fn step<T: Elt>(m: &mut Matrix<T>, op: &str, a: &mut Args, out: &mut Out) {
 pub fn run<T: Elt>(kind: &str, a: &mut Args, out: &mut Out) {
     match kind {
         // mat.hist <M> (<op> <args>)*    after every op: result (if any), P<class> if it panicked, then the state
-        "mat.hist" => {
+        // mat.histeq: the same, and after every state dump the derived PartialEq of the matrix against a freshly
+        // built one with the same shape and entries (i1 / i0): stale or missing raw storage becomes observable
+        "mat.hist" | "mat.histeq" => {
+            let eq = kind == "mat.histeq";
             let mut m = a.m::<T>();
             out.m(&m);
+            if eq { out.boolean(m == rebuild(&m)); }
             while a.more() {
                 let op = a.word();
                 let r = catch_unwind(AssertUnwindSafe(|| step(&mut m, op, a, out)));
@@ -100,8 +116,22 @@ pub fn run<T: Elt>(kind: &str, a: &mut Args, out: &mut Out) {
                 }
                 while a.more() { if a.word() == ";" { break; } }
                 out.m(&m);
+                if eq { out.boolean(m == rebuild(&m)); }
             }
         }
+        // norms of functions.rs (impl Matrix<f64> only): norm_1, norm_inf, norm_max, norm_frob
+        "mat.norms" => { let m = a.m::<T>(); let snap = m.clone();
+            let mf = as_f64(&m);
+            let (n1, ni, nm, nf) = (mf.norm_1(), mf.norm_inf(), mf.norm_max(), mf.norm_frob());
+            check_same(&m, &snap, "norms");
+            out.f(n1); out.f(ni); out.f(nm); out.f(nf); }
+        // f64 * Matrix<f64> (the only scalar-on-the-left operator): owned form only; compared with matrix * scalar
+        "mat.scale_l" => { let m = a.m::<T>(); let x = a.f64();
+            let mf: Matrix<f64> = as_f64(&m).clone();
+            let r = x * mf.clone();
+            out.m(&r); out.m(&(mf * x)); }
+        // norm_p(p) for a general exponent (libm powf: oracle only)
+        "mat.norm_p" => { let m = a.m::<T>(); let p = a.f64(); out.f(as_f64(&m).norm_p(p)); }
         "mat.solve_basic" => { let mut m = a.m::<T>(); let b = a.v::<T>(); let bs = b.clone();
             let x = m.solve_basic(&b); if !same_v(&b, &bs) { panic!("harness: operand mutated by solve_basic"); } out.v(&x); }
         "mat.solve_lu" => { let mut m = a.m::<T>(); let b = a.v::<T>(); let bs = b.clone();
